@@ -568,7 +568,13 @@ func (e *Enc) havocMods(fr *Frame, st *St, ms *ModSet, includeLocals bool) {
 		isCallGhost := strings.HasPrefix(c.Fam, "G:calls:") || c.Fam == "G:recv"
 		// Top stands for unknown code of this module: it cannot touch call ghosts, and user
 		// ghost variables change only through contracts that declare them
-		if (ms.Top && !isCallGhost && !(c.Kind == "ghost" && strings.HasPrefix(c.Name, "ghost_"))) || ms.Fams[c.Fam] {
+		tracked := false
+		if c.Kind == "ghost" && strings.HasPrefix(c.Name, "ghost_") {
+			if pats, ok := e.cs.Tracks[strings.TrimPrefix(c.Name, "ghost_")]; ok {
+				tracked = ms.Top || famsMatch(ms, pats)
+			}
+		}
+		if tracked || (ms.Top && !isCallGhost && !(c.Kind == "ghost" && strings.HasPrefix(c.Name, "ghost_"))) || ms.Fams[c.Fam] {
 			oldSyms[c.Name] = e.get(st, c)
 			e.havocComp(st, c, "")
 			hv = append(hv, c)
